@@ -93,5 +93,25 @@ def copyViolation (lay c : Composer) : Option Nat := Id.run do
       | some v0 => if v0 != v then return some w
   return none
 
+/-- identity components of row `i` of the *compiled* layout `lay` evaluated on the wire values
+    and public inputs of the proving-time composer `c` (what `Prover::prove` checks) -/
+def rowCompsMixed (lay c : Composer) (i : Nat) : List (String × Nat) :=
+  let n := lay.paddedSize
+  let r := c.rowVals i
+  let nx := c.rowVals ((i + 1) % n)
+  rowComps (lay.gateAt i) r.a r.b r.c r.d nx.a nx.b nx.d (c.piAt i)
+
+/-- outcome of proving the instance `c` against keys compiled from `lay` -/
+def proveOutcome (lay c : Composer) : String :=
+  if c.gates.size != lay.gates.size then "sizeerr"
+  else
+    match (List.range lay.paddedSize).findSome? (fun i =>
+        ((rowCompsMixed lay c i).find? (fun p => p.2 != 0)).map fun p => (i, p.1)) with
+    | some (i, n) => s!"unsat row={i} comp={n}"
+    | none =>
+      match copyViolation lay c with
+      | some w => s!"unsat copy={w}"
+      | none => "sat"
+
 end Composer
 end Plonk
